@@ -463,6 +463,10 @@ std::pair<void*,size_t> splinetable<Alloc>::write_fits_mem() const{
 	
 	try{
 		fits_create_memfile(&fits, &buf, &memsize, FITS_blocksize, realloc, &error);
+		if (error != 0){
+			fits_report_error(stderr, error);
+			throw std::runtime_error("CFITSIO failed to create memory 'file' for writing");
+		}
 		
 		struct fits_cleanup{
 			fitsfile* fits;
